@@ -1,7 +1,171 @@
-import PprofVerif.Base.Tok
-/- Driver operations for C14. -/
+import PprofVerif.Model.Legacy
+/- Driver operations for C14 (legacy formats): print a document, its documented meaning, and
+   the Lean parser on bytes.  The float parameters of the model are instantiated here with
+   Lean's IEEE doubles (`Float.exp` = C `exp`). -/
 namespace Driver.C14
-open PV
+open PV PV.Legacy
 
-def ops : List (String × (List String → String)) := []
+def scaleF : ScaleFn := fun count size rate =>
+  let avg := Float.ofNat size / Float.ofNat count
+  let scale := 1.0 / (1.0 - Float.exp (-avg / Float.ofNat rate))
+  ((Float.ofNat count * scale).toInt64.toInt, (Float.ofNat size * scale).toInt64.toInt)
+
+def cycF : CycFn := fun cycles period hz =>
+  (Float.ofNat cycles * Float.ofNat period / (Float.ofNat hz / 1e9)).toInt64.toInt
+
+namespace R
+open PV.Rd
+
+def filler : Rd Filler := do pure { indent := ← nat, comment := ← opt str }
+def perm : Rd Perm := do
+  match ← nat with
+  | 0 => pure .rxp | 1 => pure .rp | 2 => pure .rwp | 3 => pure .rwxp | 4 => pure .nonep | 5 => pure .xp
+  | _ => failure
+def mapForm : Rd MapForm := do
+  match ← nat with
+  | 0 => pure (.proc (← perm) (← nat) (← nat) (← nat) (← nat) (← opt str))
+  | 1 => pure (.brief (← bool) (← opt perm) (← opt str) (← opt nat) (← opt str))
+  | _ => failure
+def mapEntry : Rd MapEntry := do
+  pure { indent := ← nat, ox := ← bool, width := ← nat, start := ← nat, limit := ← nat, gap := ← nat, form := ← mapForm }
+def mapSection : Rd MapSection := do
+  pure { entries := ← list (do let f ← list filler; let e ← mapEntry; pure (f, e)), post := ← list filler }
+
+def countDoc : Rd CountDoc := do
+  pure { pre := ← list filler, name := ← str, total := ← nat, width := ← nat,
+         recs := ← list (do pure { fill := ← list filler, n := ← nat, addrs := ← list nat }),
+         post := ← list filler, map := ← opt mapSection }
+
+def heapKind : Rd HeapKind := do
+  match ← nat with
+  | 0 => pure .heapzV2 | 1 => pure .heapV2 | 2 => pure .heapprofile | 3 => pure .heap
+  | 4 => pure .growth | 5 => pure .growthz | 6 => pure .fragmentation | 7 => pure .fragmentationz
+  | _ => failure
+def heapDoc : Rd HeapDoc := do
+  pure { kind := ← heapKind, totInuseN := ← nat, totInuseB := ← nat, totAllocN := ← nat, totAllocB := ← nat,
+         rate := ← opt nat, pad := ← nat, width := ← nat,
+         recs := ← list (do pure { fill := ← list filler, indent := ← nat, inuseN := ← nat, inuseB := ← nat,
+                                   allocN := ← nat, allocB := ← nat, addrs := ← list nat }),
+         post := ← list filler, libs := ← bool, map := ← opt mapSection }
+
+def contDoc : Rd ContDoc := do
+  let head ← (do match ← nat with
+    | 0 => pure (ContHead.contentionz (← nat)) | 1 => pure .mutex | 2 => pure .contention | _ => failure)
+  let key : Rd ContKey := do
+    match ← nat with
+    | 0 => pure .cyclesPerSecond | 1 => pure .samplingPeriod | 2 => pure .msSinceReset | 3 => pure .discarded
+    | _ => failure
+  pure { head := head,
+         attrs := ← list (do pure { fill := ← list filler, indent := ← nat, key := ← key, value := ← nat, spaced := ← bool }),
+         width := ← nat,
+         recs := ← list (do pure { fill := ← list filler, indent := ← nat, cycles := ← nat, count := ← nat,
+                                   gap := ← nat, addrs := ← list nat }),
+         post := ← list filler, map := ← opt mapSection }
+
+def threadLine : Rd ThreadLine := do
+  let blanks ← nat
+  let indent ← nat
+  let label ← (do match ← nat with
+    | 0 => pure ThreadLabel.none | 1 => pure .pc | 2 => pure .pc2 | 3 => pure .creator | _ => failure)
+  pure { blanks := blanks, indent := indent, label := label, addrs := ← list nat, sym := ← opt str }
+def threadDoc : Rd ThreadDoc := do
+  let pre ← list filler
+  let head ← opt (do let n ← nat; let fs ← list filler; pure (n, fs))
+  let width ← nat
+  let recs ← list (do
+    let id ← nat; let name ← str; let tid ← nat
+    let body ← (do match ← nat with
+      | 0 => pure (ThreadBody.same (← nat) (← nat))
+      | 1 => pure (ThreadBody.stack (← list threadLine))
+      | _ => failure)
+    pure ({ id := id, name := name, tid := tid, body := body } : ThreadRec))
+  let ending ← (do match ← nat with
+    | 0 => pure (ThreadEnd.map (← mapSection))
+    | 1 => pure (ThreadEnd.noStack (← nat) (← opt mapSection))
+    | _ => failure)
+  pure { pre := pre, head := head, width := width, recs := recs, ending := ending }
+
+def cpuDoc : Rd CpuDoc := do
+  pure { big := ← bool, w64 := ← bool, period := ← nat,
+         recs := ← list (do pure { count := ← nat, addrs := ← list nat }),
+         eod := ← bool, map := ← opt mapSection }
+
+def javaDoc : Rd JavaDoc := do
+  let kind : Rd JavaLocKind := do
+    match ← nat with
+    | 0 => pure (.fileLine (← str) (← str) (← int))
+    | 1 => pure (.path (← str) (← str))
+    | 2 => pure (.stub (← str) (← str))
+    | 3 => pure (.plain (← str))
+    | _ => failure
+  pure { heap := ← bool, format := ← bool, resolution := ← str, samplingPeriod := ← opt nat,
+         msSinceReset := ← opt nat, spaced := ← bool, width := ← nat,
+         recs := ← list (do pure { blanks := ← nat, indent := ← nat, first := ← nat, second := ← nat,
+                                   gap := ← nat, addrs := ← list nat }),
+         blanksAfter := ← nat,
+         locs := ← list (do pure { fill := ← list filler, indent := ← nat, width := ← nat, addr := ← nat,
+                                   gap := ← nat, kind := ← kind }) }
+end R
+
+/-- a document of any format -/
+inductive Doc where
+  | count (d : CountDoc) | heap (d : HeapDoc) | cont (d : ContDoc) | thread (d : ThreadDoc)
+  | cpu (d : CpuDoc) | java (d : JavaDoc)
+
+def readDoc (ts : List String) : Option Doc :=
+  match ts with
+  | "count" :: r => (Rd.run R.countDoc r).map .count
+  | "heap" :: r => (Rd.run R.heapDoc r).map .heap
+  | "contention" :: r => (Rd.run R.contDoc r).map .cont
+  | "thread" :: r => (Rd.run R.threadDoc r).map .thread
+  | "cpu" :: r => (Rd.run R.cpuDoc r).map .cpu
+  | "java" :: r => (Rd.run R.javaDoc r).map .java
+  | _ => none
+
+def Doc.print : Doc → Str
+  | .count d => printCount d | .heap d => printHeap d | .cont d => printContention d
+  | .thread d => printThread d | .cpu d => printCpu d | .java d => printJava d
+
+def Doc.wf : Doc → Bool
+  | .count d => d.wf | .heap d => d.wf | .cont d => d.wf | .thread d => d.wf | .cpu d => d.wf | .java d => d.wf
+
+def Doc.expected : Doc → Profile
+  | .count d => expectedCount d | .heap d => expectedHeap scaleF d | .cont d => expectedContention cycF d
+  | .thread d => expectedThread d | .cpu d => expectedCpu d | .java d => expectedJava scaleF d
+
+/-- the format's own parser (what `parseX_printX` is about) -/
+def Doc.parseOwn (d : Doc) (b : Str) : Outcome Profile :=
+  match d with
+  | .count _ => parseGoCount b | .heap _ => parseHeap scaleF b | .cont _ => parseContention cycF b
+  | .thread _ => parseThread b | .cpu _ => parseCPU b | .java _ => parseJavaProfile scaleF b
+
+def outProfile : Outcome Profile → String
+  | .ok p => "ok " ++ Wr.render (Wr.profile p)
+  | .err e => "err " ++ (e.replace " " "-")
+  | .panic s => "panic " ++ (s.replace " " "-")
+
+def ops : List (String × (List String → String)) := [
+  ("legacy.print", fun ts =>
+    match readDoc ts with
+    | none => "bad-op"
+    | some d => Str.toTok d.print),
+  ("legacy.wf", fun ts =>
+    match readDoc ts with
+    | none => "bad-op"
+    | some d => if d.wf then "1" else "0"),
+  ("legacy.expected", fun ts =>
+    match readDoc ts with
+    | none => "bad-op"
+    | some d => if d.wf then "ok " ++ Wr.render (Wr.profile d.expected) else "not-wf"),
+  -- the whole dispatch chain of parseLegacy on arbitrary bytes
+  ("legacy.parse", fun ts =>
+    match Rd.run Rd.str ts with
+    | none => "bad-op"
+    | some b => outProfile (parseLegacy scaleF cycF b)),
+  -- the format's own parser on the printed document
+  ("legacy.parseprinted", fun ts =>
+    match readDoc ts with
+    | none => "bad-op"
+    | some d => outProfile (d.parseOwn d.print))
+]
 end Driver.C14
